@@ -21,11 +21,17 @@ Translates with `ast` (no pinned source strings: expressions and statements are 
 
 into terms of coq/theories/Relay/Syntax.v.  coq/theories/Relay/Tie.v interprets them.
 
-Fail closed: inside the translated functions every statement must either be recognised or be
-IGNORABLE = contains no await / yield / return / raise / break / continue / nested definition and
-mentions none of the names the relay depends on (per function, `TRACKED_*` below); logging calls
-(`logger.xxx(...)`, `logger = getLogger(...)`) are ignorable whatever they read.  Anything else
-raises RelayError and `./check C10` reports a broken tie obligation.
+Fail closed.  Inside a translated function every statement must be RECOGNISED (translated into a term) or be
+  * a logging statement: `logger.<level>(...)`, `getLogger(..).<level>(...)`, `logger = getLogger(...)`, whose
+    arguments contain no Call / NamedExpr / Await / Yield;
+  * `pass`;
+  * one of the statements listed, per function, in DROPPED_* below (compared after `ast.unparse`: a PIN of statements
+    known to have no effect on the relay; any other statement -- in particular one with a call, or one that mentions
+    `context`, `event`, a queue, the task or the timer -- is refused);
+`assert <test without Call/Await>` is translated (SAssert / CAssert: it may raise), any other assert is refused.
+Classes: bases, decorators, default arguments and members other than the expected ones are refused; so is module-level
+code that is not an import, a def/class, a docstring or a plain literal assignment to a name that is not translated.
+Anything refused raises RelayError and `./check C10` reports a broken tie obligation.
 """
 from __future__ import annotations
 
@@ -47,12 +53,27 @@ class RelayError(Exception):
     pass
 
 
-TRACKED_SESSION = {'queue_out', 'relay_events', 'run_in_process', '_on_start_run', '_on_end_run', 'set_queues', 'spawned'}
-TRACKED_HOOKFN = {'hook', 'ahook', 'awith'}
-TRACKED_RELAY = {'queue', 'task', 'timer', 'Timer', 'in_finally', '_monitor', 'event', 'hook', 'ahook', 'awith', 'asyncio',
-                 'create_task', 'to_thread'}
-TRACKED_CHILD = {'_queue_out', '_queue_in', 'run', 'wait_until_queue_empty', 'ret', 'exit', '_exit'}
-TRACKED_DISPATCH = {'ahook', 'awith', 'asyncio', 'create_task'}
+# statements known to have no effect on the relay; dropped (PINNED by their normalised text, per function)
+DROPPED_SESSION = {
+    'context.exited_process = None',
+    "mp_context = mp.get_context('spawn')",
+    'queue_in = cast(QueueIn, mp_context.Queue())',
+    'context.send_command = SendCommand(queue_in)',
+    'context.open_prompts.clear()',
+    'if context.exited_process.returned is None:\n    context.exited_process.returned = RunResult()',
+    'if context.exited_process.raised:\n    logger = getLogger(__name__)\n    logger.exception(context.exited_process.raised)',
+}
+DROPPED_HOOKFN = {
+    'event = events.OnStartRun(started_at=process.process_created_at, run_no=run_arg.run_no, statement=run_arg.statement)',
+    'run_result = process.returned or RunResult()',
+    "event = events.OnEndRun(ended_at=process.process_exited_at, run_no=run_arg.run_no, returned=run_result.fmt_ret or json.dumps(None), "
+    "raised=run_result.fmt_exc or '')",
+}
+DROPPED_RELAY: set = set()
+DROPPED_CHILD = {'traceback.print_exc()'}
+SRC_EVENTS = 'nextline/events.py'
+TRANSLATED_NAMES = {'RunSession', 'relay_events', '_on_start_run', '_on_end_run', 'OnEvent', 'Timer', 'wait_until_queue_empty',
+                    'set_queues', 'main', 'run', 'hookimpl', 'partial', 'cast', 'asyncio', 'spawned', 'events', 'Event'}
 
 CONTROL = (ast.Await, ast.Yield, ast.YieldFrom, ast.Return, ast.Raise, ast.Break, ast.Continue, ast.FunctionDef,
            ast.AsyncFunctionDef, ast.ClassDef, ast.Lambda, ast.Global, ast.Nonlocal, ast.While, ast.For, ast.AsyncFor,
@@ -93,34 +114,65 @@ def has_control(node) -> bool:
     return any(isinstance(n, CONTROL) for n in ast.walk(node))
 
 
+def _pure_args(call) -> bool:
+    for a in list(call.args) + [k.value for k in call.keywords]:
+        if any(isinstance(n, (ast.Call, ast.NamedExpr, ast.Await, ast.Yield, ast.YieldFrom, ast.Lambda)) for n in ast.walk(a)):
+            return False
+    return True
+
+
+def _is_getlogger(n) -> bool:
+    return isinstance(n, ast.Call) and is_name(n.func, 'getLogger') and _pure_args(n)
+
+
 def is_logging(st) -> bool:
-    """`logger.xxx(...)` or `logger = getLogger(...)`: reads only"""
-    if has_control(st):
-        return False
-    if any(isinstance(n, ast.NamedExpr) for n in ast.walk(st)):
-        return False
+    """`logger.xxx(...)`, `getLogger(..).xxx(...)` or `logger = getLogger(...)`; arguments without calls"""
     if isinstance(st, ast.Expr) and isinstance(st.value, ast.Call):
         f = st.value.func
-        return isinstance(f, ast.Attribute) and isinstance(f.value, ast.Name) and f.value.id == 'logger'
-    if isinstance(st, ast.Assign) and len(st.targets) == 1 and isinstance(st.targets[0], ast.Name) and st.targets[0].id == 'logger':
-        return isinstance(st.value, ast.Call) and isinstance(st.value.func, ast.Name) and st.value.func.id == 'getLogger'
+        if isinstance(f, ast.Attribute) and f.attr in ('debug', 'info', 'warning', 'error', 'exception', 'critical') \
+                and (is_name(f.value, 'logger') or _is_getlogger(f.value)):
+            return _pure_args(st.value)
+        return False
+    if isinstance(st, ast.Assign) and len(st.targets) == 1 and is_name(st.targets[0], 'logger'):
+        return _is_getlogger(st.value)
     return False
 
 
-def ignorable(st, tracked: set[str]) -> bool:
-    if is_logging(st):
-        return True
-    if isinstance(st, ast.If):
-        return (not has_control(st.test) and not (idents(st.test) & tracked)
-                and all(ignorable(x, tracked) for x in st.body + st.orelse))
-    if not isinstance(st, (ast.Expr, ast.Assign, ast.AnnAssign, ast.AugAssign, ast.Assert, ast.Pass)):
-        return False
-    if has_control(st):
-        return False
-    if isinstance(st, ast.Assert):
-        # an assert has no effect of its own; its test must not call anything
-        return not any(isinstance(n, (ast.Call, ast.Await)) for n in ast.walk(st.test)) or not (idents(st) & tracked)
-    return not (idents(st) & tracked)
+def is_plain_assert(st) -> bool:
+    return isinstance(st, ast.Assert) and st.msg is None and \
+        not any(isinstance(n, (ast.Call, ast.Await, ast.Yield, ast.YieldFrom, ast.Lambda)) for n in ast.walk(st.test))
+
+
+def ignorable(st, dropped: set) -> bool:
+    return is_logging(st) or isinstance(st, ast.Pass) or norm(st) in dropped
+
+
+def check_module_level(tree, rel: str) -> None:
+    """imports, defs, classes, docstrings and literal assignments to names that are not translated: nothing that
+    could rebind or patch a translated name"""
+    for st in tree.body:
+        if isinstance(st, (ast.Import, ast.ImportFrom, ast.ClassDef, ast.FunctionDef, ast.AsyncFunctionDef)):
+            continue
+        if isinstance(st, ast.Expr) and isinstance(st.value, ast.Constant) and isinstance(st.value.value, str):
+            continue
+        tgt = None
+        if isinstance(st, ast.Assign) and len(st.targets) == 1:
+            tgt, val = st.targets[0], st.value
+        elif isinstance(st, ast.AnnAssign):
+            tgt, val = st.target, st.value
+        if isinstance(tgt, ast.Name) and tgt.id not in TRANSLATED_NAMES and \
+                (val is None or not any(isinstance(n, (ast.Call, ast.NamedExpr, ast.Lambda, ast.Await)) for n in ast.walk(val))):
+            continue
+        raise RelayError(f'{rel}:{st.lineno}: module-level statement `{norm(st).splitlines()[0]}` not recognised')
+    defs = [st.name for st in tree.body if isinstance(st, (ast.ClassDef, ast.FunctionDef, ast.AsyncFunctionDef))]
+    for d in set(defs):
+        if defs.count(d) > 1 and d in TRANSLATED_NAMES:
+            raise RelayError(f'{rel}: `{d}` defined more than once')
+
+
+def no_defaults(fn, what: str) -> None:
+    if fn.args.defaults or any(d is not None for d in fn.args.kw_defaults):
+        raise RelayError(f'{what}: default argument values')
 
 
 def seq(items: list[str]) -> str:
@@ -274,7 +326,7 @@ def tr_relay_stmt(st, sc: RelayScope, fn: str, st8: dict) -> str:
         try:
             c = tr_bexp(st.test, sc, w)
         except RelayError:
-            if ignorable(st, TRACKED_RELAY):
+            if ignorable(st, DROPPED_RELAY):
                 return ''
             raise
         return f'(SIf {c} {tr_relay_body(st.body, sc, fn, st8)} {tr_relay_body(st.orelse, sc, fn, st8)})'
@@ -335,7 +387,7 @@ def tr_relay_stmt(st, sc: RelayScope, fn: str, st8: dict) -> str:
             return 'SCreateMonitor'
         if t == 'event' and isinstance(v, ast.Await) and is_to_thread(v.value, sc, 'get', False):
             return '(SAssignEvent VGetEvent)'
-    if ignorable(st, TRACKED_RELAY):
+    if ignorable(st, DROPPED_RELAY):
         return ''
     raise RelayError(f'{w}: statement `{norm(st).splitlines()[0]}` not recognised')
 
@@ -413,79 +465,125 @@ def tr_session_stmt(st, fn: str, st8: dict) -> str:
             if is_attr_chain(v.value, ['context', 'running_process']):
                 return 'SAwaitProcess'
             raise RelayError(f'{w}: `{norm(st)}` not recognised')
-    if ignorable(st, TRACKED_SESSION):
+    if is_plain_assert(st):
+        return 'SAssert'
+    if ignorable(st, DROPPED_SESSION):
         return ''
     raise RelayError(f'{w}: statement `{norm(st).splitlines()[0]}` not recognised')
 
 
 def tr_hook_fn(fn_node, hook: str, ctor: str) -> str:
-    """_on_start_run / _on_end_run: everything ignorable but exactly one awaited hook call"""
+    """_on_start_run / _on_end_run: asserts, pinned construction of the event, exactly one awaited hook call"""
     out = []
+    n = 0
     for st in strip_doc(fn_node.body):
         if hook_await(st, hook, True):
             out.append(f'(SAwaitHook {ctor})')
-        elif ignorable(st, TRACKED_HOOKFN):
+            n += 1
+        elif is_plain_assert(st):
+            out.append('SAssert')
+        elif ignorable(st, DROPPED_HOOKFN):
             continue
         else:
             raise RelayError(f'{where(fn_node.name, st)}: statement `{norm(st).splitlines()[0]}` not recognised')
-    if len(out) != 1:
+    if n != 1:
         raise RelayError(f'{fn_node.name}: expected exactly one `await context.hook.ahook.{hook}(context=context, event=event)`')
-    return out[0]
+    return seq(out)
 
 
 # ---------------------------------------------------------------- monitor.py: dispatch
 
-def dispatch_table(tree) -> list[tuple[str, str]]:
+KEY = '(event.trace_no, event.prompt_no)'
+
+
+def dispatch_table(tree) -> list[tuple[str, list[str]]]:
+    """every statement of on_event_in_process is translated or refused: before the match only `ahook = context.hook.ahook`;
+    in a case only the open_prompts update and ONE awaited `ahook.<name>(context=context, event=event)`; `case _`: logging"""
     cls = find(tree.body, ast.ClassDef, 'OnEvent', SRC_MONITOR)
-    f = find(cls.body, ast.AsyncFunctionDef, 'on_event_in_process', SRC_MONITOR)
-    if argnames(f) != ['self', 'context', 'event']:
-        raise RelayError('on_event_in_process: parameters')
+    if cls.bases or cls.keywords or cls.decorator_list:
+        raise RelayError('OnEvent: bases/decorators')
+    members = strip_doc(cls.body)
+    if len(members) != 1 or not isinstance(members[0], ast.AsyncFunctionDef) or members[0].name != 'on_event_in_process':
+        raise RelayError('OnEvent: members other than `async def on_event_in_process`')
+    f = members[0]
+    if argnames(f) != ['self', 'context', 'event'] or [norm(d) for d in f.decorator_list] != ['hookimpl']:
+        raise RelayError('on_event_in_process: parameters/decorators')
+    no_defaults(f, 'on_event_in_process')
+    body = strip_doc(f.body)
+    if len(body) != 2 or not is_assign_ahook(body[0]) or not isinstance(body[1], ast.Match):
+        raise RelayError('on_event_in_process: body is not `ahook = context.hook.ahook; match event: ...`')
+    m = body[1]
+    if not is_name(m.subject, 'event'):
+        raise RelayError('on_event_in_process: match subject is not `event`')
     table = []
-    seen_match = False
-    for st in strip_doc(f.body):
-        if isinstance(st, ast.Match):
-            if seen_match or not is_name(st.subject, 'event'):
-                raise RelayError(f'{where("on_event_in_process", st)}: match statement')
-            seen_match = True
-            for c in st.cases:
-                pat = c.pattern
-                if c.guard is not None:
-                    raise RelayError(f'on_event_in_process:{pat.lineno}: guarded case')
-                if isinstance(pat, ast.MatchAs) and pat.pattern is None and pat.name is None:
-                    for x in c.body:
-                        if not ignorable(x, TRACKED_DISPATCH):
-                            raise RelayError(f'{where("on_event_in_process", x)}: statement in `case _` not recognised')
-                    continue
-                if not (isinstance(pat, ast.MatchClass) and is_attr_chain(pat.cls, ['events', pat.cls.attr if isinstance(pat.cls, ast.Attribute) else '?'])
-                        and not pat.patterns and not pat.kwd_patterns):
-                    raise RelayError(f'on_event_in_process:{pat.lineno}: case pattern `{norm(pat)}` not recognised')
-                awaited = []
-                for x in c.body:
-                    if isinstance(x, ast.Expr) and isinstance(x.value, ast.Await):
-                        a = x.value.value
-                        ok = isinstance(a, ast.Call) and isinstance(a.func, ast.Attribute) and is_name(a.func.value, 'ahook') and not a.args
-                        kws = {k.arg: k.value for k in a.keywords} if ok else {}
-                        ok = ok and set(kws) == {'context', 'event'} and is_name(kws['context'], 'context') and is_name(kws['event'], 'event')
-                        if not ok:
-                            raise RelayError(f'{where("on_event_in_process", x)}: await `{norm(x)}` not recognised')
-                        awaited.append(a.func.attr)
-                    elif not ignorable(x, TRACKED_DISPATCH):
-                        raise RelayError(f'{where("on_event_in_process", x)}: statement `{norm(x)}` not recognised')
-                if len(awaited) != 1:
-                    raise RelayError(f'on_event_in_process: case {pat.cls.attr} awaits {len(awaited)} hooks')
-                table.append((pat.cls.attr, awaited[0]))
-        elif is_assign_ahook(st):
+    default_seen = False
+    for c in m.cases:
+        pat = c.pattern
+        if c.guard is not None:
+            raise RelayError(f'on_event_in_process:{pat.lineno}: guarded case')
+        if default_seen:
+            raise RelayError(f'on_event_in_process:{pat.lineno}: case after `case _`')
+        if isinstance(pat, ast.MatchAs) and pat.pattern is None and pat.name is None:
+            default_seen = True
+            for x in c.body:
+                if not is_logging(x):
+                    raise RelayError(f'{where("on_event_in_process", x)}: statement in `case _` is not logging')
             continue
-        elif not ignorable(st, TRACKED_DISPATCH):
-            raise RelayError(f'{where("on_event_in_process", st)}: statement `{norm(st)}` not recognised')
-    if not seen_match:
-        raise RelayError('on_event_in_process: no match statement')
+        if not (isinstance(pat, ast.MatchClass) and isinstance(pat.cls, ast.Attribute) and is_name(pat.cls.value, 'events')
+                and not pat.patterns and not pat.kwd_patterns):
+            raise RelayError(f'on_event_in_process:{pat.lineno}: case pattern `{norm(pat)}` not recognised')
+        stmts = []
+        for x in c.body:
+            w = where('on_event_in_process', x)
+            if isinstance(x, ast.Expr) and isinstance(x.value, ast.Await):
+                a = x.value.value
+                ok = isinstance(a, ast.Call) and isinstance(a.func, ast.Attribute) and is_name(a.func.value, 'ahook') and not a.args
+                kws = {k.arg: k.value for k in a.keywords} if ok else {}
+                ok = ok and set(kws) == {'context', 'event'} and is_name(kws['context'], 'context') and is_name(kws['event'], 'event')
+                if not ok:
+                    raise RelayError(f'{w}: await `{norm(x)}` not recognised')
+                stmts.append(f'DAwaitHook "{a.func.attr}"')
+            elif norm(x) == f'context.open_prompts.add({KEY})':
+                stmts.append('DOpenAdd')
+            elif norm(x) == f'context.open_prompts.discard({KEY})':
+                stmts.append('DOpenDiscard')
+            else:
+                raise RelayError(f'{w}: statement `{norm(x).splitlines()[0]}` not recognised')
+        table.append((pat.cls.attr, stmts))
     return table
 
 
 def is_assign_ahook(st) -> bool:
     return (isinstance(st, ast.Assign) and len(st.targets) == 1 and is_name(st.targets[0], 'ahook')
             and is_attr_chain(st.value, ['context', 'hook', 'ahook']))
+
+
+def event_classes(repo: Path) -> dict:
+    """classes of nextline/events.py derived from Event; which of them the child constructs (nextline/spawned/**) and which
+    the main process constructs itself in session.py"""
+    t = parse(repo, SRC_EVENTS)
+    classes = []
+    for st in t.body:
+        if isinstance(st, ast.ClassDef) and [norm(b) for b in st.bases] == ['Event']:
+            classes.append(st.name)
+    if not classes:
+        raise RelayError(f'{SRC_EVENTS}: no event classes')
+
+    def constructed(tree) -> set[str]:
+        out = set()
+        for n in ast.walk(tree):
+            if isinstance(n, ast.Call):
+                f = n.func
+                nm = f.id if isinstance(f, ast.Name) else f.attr if isinstance(f, ast.Attribute) else None
+                if nm in classes:
+                    out.add(nm)
+        return out
+
+    child = set()
+    for p in sorted((repo / 'nextline/spawned').rglob('*.py')):
+        child |= constructed(ast.parse(p.read_text()))
+    main = constructed(parse(repo, SRC_SESSION))
+    return {'all': classes, 'child': [c for c in classes if c in child], 'main': [c for c in classes if c in main]}
 
 
 # ---------------------------------------------------------------- Timer
@@ -511,6 +609,7 @@ def tr_timer_method(fn_node, params: list[str]) -> str:
     name = f'Timer.{fn_node.name}'
     if argnames(fn_node) != params:
         raise RelayError(f'{name}: parameters {argnames(fn_node)}')
+    no_defaults(fn_node, name)
     out = []
     for st in strip_doc(fn_node.body):
         w = where(name, st)
@@ -588,6 +687,8 @@ def tr_wait_body(body, sc: RelayScope, fn: str, params: set[str]) -> str:
 def wait_defs(tree) -> dict:
     f = find(tree.body, ast.FunctionDef, 'wait_until_queue_empty', SRC_QUEUE)
     names = argnames(f)
+    if f.decorator_list:
+        raise RelayError('wait_until_queue_empty: decorators')
     if names != ['queue', 'timeout', 'interval'] or f.args.kwonlyargs:
         raise RelayError(f'wait_until_queue_empty: parameters {names}')
     defaults = f.args.defaults
@@ -617,6 +718,9 @@ def child_defs(tree, runner_tree, wait_default: str) -> dict:
     # set_queues
     sq = find(tree.body, ast.FunctionDef, 'set_queues', SRC_SPAWNED)
     params = argnames(sq)
+    no_defaults(sq, 'set_queues')
+    if sq.decorator_list:
+        raise RelayError('set_queues: decorators')
     pos = None
     for st in strip_doc(sq.body):
         if isinstance(st, ast.Global):
@@ -639,6 +743,7 @@ def child_defs(tree, runner_tree, wait_default: str) -> dict:
     mn = find(tree.body, ast.FunctionDef, 'main', SRC_SPAWNED)
     if argnames(mn) != ['run_arg'] or mn.decorator_list:
         raise RelayError('spawned.main: parameters/decorators')
+    no_defaults(mn, 'spawned.main')
 
     def body(stmts) -> list[str]:
         out = []
@@ -649,7 +754,7 @@ def child_defs(tree, runner_tree, wait_default: str) -> dict:
                     raise RelayError(f'{w}: try statement other than try/except BaseException: ...; raise')
                 h = st.handlers[0]
                 ok = h.type is not None and norm(h.type) == 'BaseException' and h.body and isinstance(h.body[-1], ast.Raise) \
-                    and h.body[-1].exc is None and all(ignorable(x, TRACKED_CHILD) for x in h.body[:-1])
+                    and h.body[-1].exc is None and all(ignorable(x, DROPPED_CHILD) for x in h.body[:-1])
                 if not ok:
                     raise RelayError(f'{w}: the handler does not re-raise')
                 out += body(st.body)
@@ -670,9 +775,9 @@ def child_defs(tree, runner_tree, wait_default: str) -> dict:
                 if not is_name(st.value, 'ret'):
                     raise RelayError(f'{w}: `{norm(st)}` is not `return ret`')
                 out.append('CReturn')
-            elif isinstance(st, ast.Assert) and not any(isinstance(n, (ast.Call, ast.Await, ast.NamedExpr)) for n in ast.walk(st)):
-                continue
-            elif ignorable(st, TRACKED_CHILD):
+            elif is_plain_assert(st):
+                out.append('CAssert')
+            elif ignorable(st, DROPPED_CHILD):
                 continue
             else:
                 raise RelayError(f'{w}: statement `{norm(st).splitlines()[0]}` not recognised')
@@ -710,8 +815,12 @@ def parse(repo: Path, rel: str):
 def skeleton(repo: Path) -> dict:
     res = {}
     ts = parse(repo, SRC_SESSION)
+    check_module_level(ts, SRC_SESSION)
     rs = find(ts.body, ast.ClassDef, 'RunSession', SRC_SESSION)
+    if rs.bases or rs.keywords or rs.decorator_list or [type(x) for x in strip_doc(rs.body)] != [ast.AsyncFunctionDef]:
+        raise RelayError('RunSession: bases/decorators/members other than `run`')
     run = find(rs.body, ast.AsyncFunctionDef, 'run', 'RunSession')
+    no_defaults(run, 'RunSession.run')
     if [norm(d) for d in run.decorator_list] != ['hookimpl', 'contextlib.asynccontextmanager'] or argnames(run) != ['self', 'context']:
         raise RelayError('RunSession.run: decorators/parameters')
     st8: dict = {}
@@ -721,8 +830,9 @@ def skeleton(repo: Path) -> dict:
     res['session_out_pos'] = st8['session_out_pos']
     for nm, hook, ctor, key in (('_on_start_run', 'on_start_run', 'HOnStartRun', 'on_start'), ('_on_end_run', 'on_end_run', 'HOnEndRun', 'on_end')):
         f = find(ts.body, ast.AsyncFunctionDef, nm, SRC_SESSION)
-        if f.decorator_list or argnames(f)[:1] != ['context']:
+        if f.decorator_list or argnames(f) != ['context', 'process']:
             raise RelayError(f'{nm}: decorators/parameters')
+        no_defaults(f, nm)
         res[key] = tr_hook_fn(f, hook, ctor)
     rel = find(ts.body, ast.AsyncFunctionDef, 'relay_events', SRC_SESSION)
     if [norm(d) for d in rel.decorator_list] != ['contextlib.asynccontextmanager']:
@@ -730,6 +840,7 @@ def skeleton(repo: Path) -> dict:
     ra = argnames(rel)
     if len(ra) != 2 or ra[0] != 'context':
         raise RelayError(f'relay_events: parameters {ra}')
+    no_defaults(rel, 'relay_events')
     st8r: dict = {}
     res['relay'] = tr_relay_body(rel.body, RelayScope(ra[1]), 'relay_events', st8r)
     if 'monitor' not in st8r or not st8r.get('created'):
@@ -750,17 +861,29 @@ def skeleton(repo: Path) -> dict:
     for node in rs.body:
         if node is not run and idents(node) & {'relay_events', '_on_start_run', '_on_end_run'}:
             raise RelayError(f'RunSession:{node.lineno}: relay used outside run()')
-    res['dispatch'] = dispatch_table(parse(repo, SRC_MONITOR))
-    res['timer'] = timer_defs(parse(repo, SRC_TIMER))
-    res['wait'] = wait_defs(parse(repo, SRC_QUEUE))
-    res['child'] = child_defs(parse(repo, SRC_SPAWNED), parse(repo, SRC_RUNNER), res['wait']['default'])
+    tm_ = parse(repo, SRC_MONITOR)
+    check_module_level(tm_, SRC_MONITOR)
+    res['dispatch'] = dispatch_table(tm_)
+    res['events'] = event_classes(repo)
+    tt_ = parse(repo, SRC_TIMER)
+    check_module_level(tt_, SRC_TIMER)
+    res['timer'] = timer_defs(tt_)
+    tq_ = parse(repo, SRC_QUEUE)
+    check_module_level(tq_, SRC_QUEUE)
+    res['wait'] = wait_defs(tq_)
+    tc_ = parse(repo, SRC_SPAWNED)
+    check_module_level(tc_, SRC_SPAWNED)
+    res['child'] = child_defs(tc_, parse(repo, SRC_RUNNER), res['wait']['default'])
     res['cancel_join'] = count_cancel_join(repo)
     return res
 
 
 def translate(repo: Path) -> str:
     sk = skeleton(Path(repo))
-    disp = '; '.join(f'("{c}", "{h}")' for c, h in sk['dispatch'])
+    disp = '; '.join(f'("{c}", [{"; ".join(b)}])' for c, b in sk['dispatch'])
+
+    def strs(xs):
+        return '[' + '; '.join(f'"{x}"' for x in xs) + ']'
     L = [
         '(** GENERATED by translate/relay_skeleton.py (ast, CPython %d.%d) -- do not edit.' % sys.version_info[:2],
         f'    From {SRC_SESSION}, {SRC_MONITOR},',
@@ -784,8 +907,12 @@ def translate(repo: Path) -> str:
         '(** relay_events._monitor *)',
         f'Definition monitor_prog : stmt :=\n  {sk["monitor"]}.',
         '',
-        '(** OnEvent.on_event_in_process: event class -> the hook awaited for it *)',
-        f'Definition dispatch : list (string * string) :=\n  [{disp}].',
+        '(** OnEvent.on_event_in_process: `ahook = context.hook.ahook; match event:` -- per `case events.X():` its statements *)',
+        f'Definition dispatch : list (string * list dstmt) :=\n  [{disp}].',
+        f'(** {SRC_EVENTS}: the subclasses of Event; those constructed under nextline/spawned; those constructed in session.py *)',
+        f'Definition event_classes : list string := {strs(sk["events"]["all"])}.',
+        f'Definition child_event_classes : list string := {strs(sk["events"]["child"])}.',
+        f'Definition main_event_classes : list string := {strs(sk["events"]["main"])}.',
         '',
         '(** Timer *)',
         f'Definition timer_init : list tstmt := {sk["timer"]["__init__"]}.',
